@@ -263,7 +263,10 @@ func runC04x(c *c04Case) (v verdict, sig string, err error, cache *flowCache, mo
 	reannounced := map[int]bool{}
 	dataAfterRe := false
 	seq := uint32(1)
-	hdr := func() wire.Msg { seq++; return wire.Msg{Proto: c.Proto, Seq: seq, Time: 1000 + seq, Domain: 7, Count: 1} }
+	hdr := func() wire.Msg {
+		seq++
+		return wire.Msg{Proto: c.Proto, Seq: seq, Time: 1000 + seq, Domain: 7, Count: 1}
+	}
 	for i, op := range c.Ops {
 		if op.Slot < 0 || op.Slot >= len(c.Slots) {
 			return v, "", fmt.Errorf("bad case: slot index"), cache, model
